@@ -406,10 +406,17 @@ func (w *storeWorld) faultBlock(op Op, fail func(string, string, string, ...any)
 		rec.Step(fmt.Sprintf("F%d.%d", mode, len(b.Events)))
 	case 7, 8: // the caller's context is cancelled mid-block: before statement k (7) / while row change k is written (8)
 		ctx, cancel := context.WithCancel(context.Background())
-		p := &FaultPlan{Yield: cancel}
+		watcherSeen := true
+		p := &FaultPlan{Yield: func() {
+			cancel()
+			// which statement is the last one to succeed is decided here, not by the Go scheduler
+			if !WaitTxAborted() {
+				watcherSeen = false
+			}
+		}}
 		what := "cancel_at_statement"
 		if mode == 7 {
-			p.YieldAt = k
+			p.YieldAt, p.YieldWritesOnly = k, true
 		} else {
 			p.RowYieldAt, what = 1+(k-1)%40, "cancel_at_row"
 		}
@@ -417,6 +424,9 @@ func (w *storeWorld) faultBlock(op Op, fail func(string, string, string, ...any)
 		err := w.store.ProcessBlockCtx(ctx, b)
 		DisarmFault(path)
 		cancel()
+		if !watcherSeen {
+			return fail("harness", "cancel-watcher", "database/sql's cancellation watcher did not show up after the context was cancelled")
+		}
 		if p.Yields == 0 {
 			if err != nil {
 				return fail("process", "process-error", "ProcessBlock(%d) failed although its context was never cancelled: %v", b.Num, err)
